@@ -190,6 +190,52 @@ func HarnessReverseLoss() {
 	verif.Reach("reverse-loss-done")
 }
 
+// HarnessReverseFromNotification: the forward request that triggers the reverse
+// call is a notification (no id). The reverse call still reaches the calling
+// client and returns its answer while the connection stays up.
+func HarnessReverseFromNotification() {
+	h := newH()
+	srv := jsonrpc.NewServer(jsonrpc.WithReverseClient[RevProxy]("rev"))
+	srv.Register("H", h)
+	h.entered = make(chan struct{})
+	pc := verif.DialRaw(srv, nil)
+	if verif.Bool("null_id") {
+		pc.Send([]byte(`{"jsonrpc":"2.0","id":null,"method":"H.Fwd","params":[0,5]}`))
+	} else {
+		pc.Send([]byte(`{"jsonrpc":"2.0","method":"H.Fwd","params":[0,5]}`))
+	}
+	<-h.entered
+	b, ok := pc.Recv()
+	verif.Assert(ok, "reverse-request-arrives")
+	var r wireReq
+	json.Unmarshal(b, &r)
+	verif.Assert(r.Method == "rev.Whoami", "reverse-request-method")
+	rb, _ := json.Marshal(map[string]interface{}{"jsonrpc": "2.0", "id": r.ID, "result": 42})
+	pc.Send(rb)
+	verif.Quiesce()
+	h.mu.Lock()
+	verif.Assert(h.revRet[0] == 1 && h.revErr[0] == nil, "reverse-call-from-a-notification-handler-returns-the-clients-answer")
+	h.mu.Unlock()
+	// the connection is still fully usable
+	h.entered = nil
+	pc.Send([]byte(`{"jsonrpc":"2.0","id":7,"method":"H.Fwd","params":[1,5]}`))
+	b2, ok2 := pc.Recv()
+	verif.Assert(ok2, "later-reverse-request-arrives")
+	json.Unmarshal(b2, &r)
+	rb, _ = json.Marshal(map[string]interface{}{"jsonrpc": "2.0", "id": r.ID, "result": 43})
+	pc.Send(rb)
+	fb, ok3 := pc.Recv()
+	verif.Assert(ok3, "later-forward-response-arrives")
+	var fr struct {
+		Result int64 `json:"result"`
+	}
+	json.Unmarshal(fb, &fr)
+	verif.Assert(fr.Result == 43, "later-forward-result-is-reverse-answer")
+	pc.CloseGraceful()
+	verif.Quiesce()
+	verif.Reach("reverse-from-notification-done")
+}
+
 // HarnessReverseAbsent: without the server option, or over non-WebSocket transports, no reverse client is present.
 func HarnessReverseAbsent() {
 	h := newH()
